@@ -97,5 +97,17 @@ func Specs() map[string]*PropSpec {
 		Assumptions: []string{"staking BondDenom stubbed to aISLM", "account/bank keepers are harness stubs returning the symbolic account and balance"},
 		Stubs:       []string{"c08AK", "c08BK", "c08Inner (records what reaches the SDK staking server)"},
 	}
+	m["C14"] = &PropSpec{
+		ID: "C14", Pkgs: []string{"./x/bank/keeper"},
+		Quick:    []Inst{{Pkg: "x/bank/keeper", Fn: "VerifC14_Burn", Params: pm()}},
+		Thorough: []Inst{{Pkg: "x/bank/keeper", Fn: "VerifC14_Burn", Params: pm()}},
+		Bounds: map[string]string{
+			"quick":    "one BurnCoins call by each of 6 module names {gov, bonded, not-bonded, distribution, erc20, coinomics} with an arbitrary amount over 2 denominations from arbitrary module balances (< 2^100) and an arbitrary community pool (< 2^160 raw)",
+			"thorough": "same (single step is fully symbolic in the values)",
+		},
+		Outside:     []string{"which SDK code paths call BurnCoins (slash of bonded / unbonding / redelegating stake, vetoed or failed proposals): SDK staking/gov code; the property reduces to what BurnCoins does for their module names", "the wiring of the overriding keeper into staking/gov in app.go (construction-time fact)"},
+		Assumptions: []string{"SDK bank SendCoinsFromModuleToModule / BurnCoins replaced by a ledger stub with the documented contract (conservation, overdraft refused); natively the real SDK bank keeper is used, so validation traces compare the stub with the real thing"},
+		Stubs:       []string{"c14State (bank ledger)", "zzverif.MemStore", "blob codec"},
+	}
 	return m
 }
